@@ -53,6 +53,58 @@ length differs from the buffer pending for its `message_seq` is refused.  The re
 theorems below that mention `Facts.dtlcp.rxTotalMismatchFatal` need it. -/
 theorem C17_total_mismatch_refused : Facts.dtlcp.rxTotalMismatchFatal = true := by decide
 
+/-! ### stale-buffer cleanup: reassembly does not depend on the configured clock -/
+
+/-- Both ends of the age computation read the SAME clock (regenerated from the Go AST on every run):
+the only stamp of a reassembly buffer is `fb.receivedAt = <clock>` in `addFragment`, every source of the
+"now" that `cleanupStaleFragments` compares with it is that same expression, the comparison is
+`now.Sub(fb.receivedAt) > timeout` and the timeout the receive path passes is the 30 s constant. An
+injectable clock (`Config.Time`) at ONE of the two sites makes the age of a buffer a difference across two
+clocks: with a configured clock more than 30 s ahead every pending buffer looks stale when the next
+fragment arrives and no message of two or more fragments ever completes (`C17_two_clocks_witness`). -/
+theorem C17_facts_one_clock :
+    Facts.dtlcp.fragStampClock ≠ "" ∧
+    Facts.dtlcp.fragCleanupClocks = [Facts.dtlcp.fragStampClock] ∧
+    Facts.dtlcp.fragCleanupCond = "now.Sub(fb.receivedAt) > timeout" ∧
+    Facts.dtlcp.fragCleanupTimeoutSeconds = 30 ∧
+    Facts.missing = [] := by
+  decide
+
+/-- **The cleanup is blind to the offset and to the choice of the clock, as long as it is ONE clock.**
+When stamps and "now" come from the same clock, shifted by any offset `k` against real time (a configured
+time source hours or years away from the wall clock), the cleanup keeps exactly the buffers it keeps with
+the unshifted clock: only the elapsed time counts. -/
+theorem C17_cleanup_offset_free (k t timeout : Int) (st : Stamped) :
+    cleanupAt (fun x => x + k) (fun x => x + k) t timeout st = cleanupAt id id t timeout st := by
+  unfold cleanupAt staleAt
+  congr 1
+  funext e
+  have : t + k - (e.2 + k) = t - e.2 := by omega
+  simp [this]
+
+/-- **No buffer is dropped before the timeout has really passed.** With one clock that does not run
+backwards faster than real time (`clk t − clk s ≤ t − s` is all that is used: wall clock, shifted, another
+epoch), a cleanup at real time `t` keeps every buffer stamped at most `timeout` before `t` — so inside
+one flight, where fragments follow each other within the timeout, reassembly proceeds exactly as without
+the cleanup (which is what the model of `readHandshake` and every receiver theorem assume). -/
+theorem C17_cleanup_keeps_recent (clk : Int → Int) (t timeout : Int) (st : Stamped)
+    (hclk : ∀ e ∈ st, clk t - clk e.2 ≤ t - e.2) (hrecent : ∀ e ∈ st, t - e.2 ≤ timeout) :
+    cleanupAt clk clk t timeout st = st := by
+  unfold cleanupAt staleAt
+  apply List.filter_eq_self.mpr
+  intro e he
+  have h1 := hclk e he
+  have h2 := hrecent e he
+  simp only [Bool.not_eq_true', decide_eq_false_iff_not]
+  omega
+
+/-- Two clocks (the seeded defect's witness): stamps from the wall clock, "now" from a configured clock
+one hour ahead — a buffer stamped in the same instant (age 0) is dropped; with one clock it is kept. -/
+theorem C17_two_clocks_witness :
+    cleanupAt id (fun x => x + 3600 * 1000000000) 5 (30 * 1000000000) [(7, 5)] = [] ∧
+    cleanupAt (fun x => x + 3600 * 1000000000) (fun x => x + 3600 * 1000000000) 5 (30 * 1000000000) [(7, 5)] = [(7, 5)] := by
+  decide
+
 /-! ### the reassembly buffer -/
 
 /-- `numBytes` of the buffer `newFragmentBuffer(total)` creates -/
